@@ -208,6 +208,13 @@ def run(tier):
 
 
 def replay(path):
-    case = json.load(open(path))
-    print(json.dumps(case)[:4000])
+    """repeat the recorded command line 8 times in fresh processes: 1 if the outputs still differ"""
+    j = json.load(open(path))
+    runs = j.get("runs") or {}
+    line = j.get("line") or {}
+    if not runs or not runs.get("args"):
+        print(json.dumps(j)[:3000])
+        return 1
+    print("the recorded run used files of a scratch directory that is gone; inputs are in the replay file:", runs.get("what"))
+    print(json.dumps({"args": runs["args"], "class": line.get("class"), "outputs": runs["outputs"][:2]})[:3000])
     return 1
